@@ -250,11 +250,34 @@ func probeLine(pr *probeSpec) string {
 	switch pr.Fail {
 	case "":
 	case "syntax":
-		s += " --fail=<<7" // a multi-line marker may hold letters and '_' only: ReadArguments reports an error
+		// an opening quote pairs with the next quote anywhere in the rest of the body, so the
+		// unterminated form is used only where nothing follows: the last command of a top-level body
+		// (nested bodies are part of their parent's text)
+		if t := pr.task; pr.ID%2 == 1 && t != nil && t.parent == nil && pr.pos == len(t.Body)-1 && !strings.Contains(bodyPrefix(t, pr.pos), "\"") {
+			s += " --fail=\"never closed" // the input ends inside the quote: ReadArguments reports io.EOF as an error
+		} else {
+			s += " --fail=<<7" // a multi-line marker may hold letters and '_' only: ReadArguments reports an error
+		}
 	default:
 		s += " --fail=" + pr.Fail
 	}
 	return s
+}
+
+// bodyPrefix renders the commands of a body before position pos.
+func bodyPrefix(t *taskSpec, pos int) string {
+	var lines []string
+	for i, c := range t.Body {
+		if i >= pos {
+			break
+		}
+		if c.Probe != nil {
+			lines = append(lines, probeLine(c.Probe))
+		} else {
+			lines = append(lines, runLine(c.Nested))
+		}
+	}
+	return strings.Join(lines, "\n")
 }
 
 // bodyText renders the body of a task as the script its sandbox reads.
